@@ -1,0 +1,47 @@
+//go:build verif
+
+package certs
+
+import (
+	"crypto/tls"
+	"time"
+)
+
+// Verification hooks (build tag "verif" only). GetCertForHost decides reuse from the
+// parsed leaf of the cached certificate (Leaf.NotAfter against time.Now()). These hooks
+// let an external harness look at the cache and move the validity window of cached
+// leaves into the past, which for GetCertForHost is indistinguishable from the clock
+// having advanced. Nothing here is compiled into a normal build.
+
+// VerifCached returns the certificate currently cached under host (the part of the
+// CONNECT target before the port, as GetCertForHost keys it).
+func (ca *PrivateCA) VerifCached(host string) (*tls.Certificate, bool) {
+	return ca.certs.Get(host)
+}
+
+// VerifCachedHosts returns the keys of the certificate cache.
+func (ca *PrivateCA) VerifCachedHosts() []string {
+	var hosts []string
+	for h := range ca.certs.Keys() {
+		hosts = append(hosts, h)
+	}
+	return hosts
+}
+
+// VerifShiftExpiry moves NotBefore/NotAfter of the cached leaf of host d into the past
+// (every cached leaf when host is empty) and returns how many leaves were moved.
+// Must not run concurrently with GetCertForHost.
+func (ca *PrivateCA) VerifShiftExpiry(host string, d time.Duration) int {
+	n := 0
+	for _, h := range ca.VerifCachedHosts() {
+		if host != "" && h != host {
+			continue
+		}
+		if c, ok := ca.certs.Get(h); ok && c.Leaf != nil {
+			c.Leaf.NotBefore = c.Leaf.NotBefore.Add(-d)
+			c.Leaf.NotAfter = c.Leaf.NotAfter.Add(-d)
+			n++
+		}
+	}
+	return n
+}
